@@ -19,10 +19,10 @@ def msg(start, headers, body=b""):
 import os, time
 # ports differ from run to run (connections of a previous run may still be in TIME_WAIT); the
 # concrete ports are part of the op lines, so a replay file is self-contained
-NONCE = (int(time.time()) // 2 + os.getpid()) % 45
+NONCE = (int(time.time()) // 2 + os.getpid()) % 7      # ports 26000..32400: below the kernel's ephemeral range
 
 def gen_c07(g, lines, k):
-    base = 21000 + NONCE * 800 + k * 12
+    base = 26000 + NONCE * 800 + k * 12
     lip, P, T = "127.0.0.1", base, base + 1
     BP, UP, VP, LP = base + 2, base + 3, base + 4, base + 5
     no_received = [None, False, True, None][k % 4]
@@ -80,7 +80,7 @@ def gen_c07(g, lines, k):
 def gen_c07_two(g, lines, k):
     """one service, two listeners with DIFFERENT no-received settings, in both orders: each listener stamps (or
     does not stamp) according to its own setting, whatever the others say"""
-    base = 21000 + NONCE * 800 + 640 + k * 14
+    base = 26000 + NONCE * 800 + 640 + k * 14
     lip = "127.0.0.1"
     P1, T1, P2, T2, BP, UP, VP = base, base + 1, base + 2, base + 3, base + 4, base + 5, base + 6
     first_off = (k % 2 == 0)                 # which of the two listeners has no-received: true
@@ -109,7 +109,7 @@ def gen_c07_two(g, lines, k):
 def gen_c07_outbound(g, lines, k):
     """a listener created for a connection the proxy dialed itself (tcp:// backend): the backend talks back
     over that connection; its requests must be stamped like any other (received-support on)"""
-    base = 21000 + NONCE * 800 + 400 + k * 12
+    base = 26000 + NONCE * 800 + 400 + k * 12
     lip, P, T, BP, UP = "127.0.0.1", base, base + 1, base + 2, base + 3
     no_received = [None, True][k % 2]
     rcvd = not no_received
@@ -137,7 +137,7 @@ def gen_c08(g, lines, k):
     """hostile field values against the REAL service (real UDP/TCP transports, real client-transport selection): after each
     batch a well-formed request must still be relayed"""
     from . import hostile
-    base = 21000 + NONCE * 800 + 720 + (k % 5) * 8
+    base = 26000 + NONCE * 800 + 720 + (k % 5) * 8
     lip, P, T, BP, UP = "127.0.0.1", base, base + 1, base + 2, base + 3
     be = "127.0.1.1:%d" % BP
     ua = "127.0.2.1:%d" % UP
